@@ -1,6 +1,7 @@
 import BU.Properties.C11_GenAddr
 import BU.Proofs.GenPub
 import BU.Properties.C10_GenPub
+import BU.Properties.C12_Gen
 /-!
 # C11, continuation — `SegwitAddress.__init__` and `PublicKey.get_segwit_address` as *generated* code (tier T)
 
@@ -162,5 +163,22 @@ theorem gen_predicate (hrp : String) (hh : hrp ∈ Gen.NETWORK_SEGWIT_PREFIXES.m
     rw [gen_is_address_bech32, C11.predicate_valid hrp hh ver prog hv s hs]
   · intro s h
     rw [gen_is_address_bech32, C11.predicate_rejects s h]
+
+end C11GenInit
+
+namespace C11GenInit
+open Py Model Spec C02Gen
+
+/-- `P2wshAddress(script=…)` — the constructor called with a script only (a `Script` object is truthy: checked on the class): the object
+holds the class's numeric version and SHA-256 of the script's exact byte encoding -/
+theorem gen_segwit_init_script (sha256 : Bytes → Bytes) (T : Tables) (s : List Spec.Tok) (vs : String) (ver : Nat)
+    (hv : numVersion vs = some ver) :
+    Gen.segwit_init_script sha256 T.opCodes (s.map toPy) vs = (scriptToSha256 sha256 T s).map (fun h => ((ver : Int), h)) := by
+  unfold Gen.segwit_init_script
+  rcases ver_cases vs ver hv with ⟨c1, rfl⟩ | ⟨c1, c2, rfl⟩
+  · simp only [c1, if_true, C12Gen.gen_segwit_script_to_hash sha256 T s]
+    cases scriptToSha256 sha256 T s <;> rfl
+  · simp only [c1, Bool.false_eq_true, if_false, c2, if_true, C12Gen.gen_segwit_script_to_hash sha256 T s]
+    cases scriptToSha256 sha256 T s <;> rfl
 
 end C11GenInit
